@@ -349,7 +349,7 @@ func TestC11(t *testing.T) {
 	base := c11Cases(nil, "")
 	RunEnum(c, t, "defaults", len(base), func(i int) c11Case { return base[i] }, c11Check, true)
 	// the same table on top of random other attributes of the service (the defaults must not depend on them)
-	RunRapid(c, t, Sub[c11Case]{Kind: "defaults-with-noise", Quick: 1500, Thorough: 50_000,
+	RunRapid(c, t, Sub[c11Case]{Kind: "defaults-with-noise", Quick: 6000, Thorough: 50_000,
 		Gen: func(t *rapid.T) c11Case {
 			g := &mgen{t: t}
 			noise := map[string]any{}
